@@ -267,12 +267,25 @@ def defStr (d : Def) : String :=
     | .windowed => "win" | .determ => "det"
   s!"{k}/rate={d.rate}/fields={joinC (d.fields.map enc)}/useClusterSize={d.useCluster}/tuning={d.tuning}"
 
+def stripRoot (f : Str) : Str := if "root.".toList.isPrefixOf f then f.drop 5 else f
+def droppedName (f : Str) : Bool := f.isEmpty || "?.".toList.isPrefixOf f
+
+/-- how two different field lists are related: the same text once printed with %v (the known key
+ambiguity), the same up to `root.` prefixes, the same up to names that are no span fields (empty,
+computed `?.`), or simply different -/
+def fieldsClass (a b : List Str) : String :=
+  if joinSp (sortStr a) == joinSp (sortStr b) then "fieldlist-join"
+  else if sortStr (a.map stripRoot) == sortStr (b.map stripRoot) then "fields-differ:root-prefix"
+  else if sortStr (a.filter (!droppedName ·)) == sortStr (b.filter (!droppedName ·)) then "fields-differ:dropped-names"
+  else if sortStr ((a.filter (!droppedName ·)).map stripRoot) == sortStr ((b.filter (!droppedName ·)).map stripRoot) then "fields-differ:root-prefix"
+  else "fields-differ"
+
 /-- why two different (prefix, definition) pairs must not share an instance, most basic difference first -/
 def isoClass (a b : MSlot) : String :=
   if a.env != b.env || a.down != b.down then "env-collision"
   else if a.d.kind != b.d.kind then "kind-collision"
   else if a.d.rate != b.d.rate then "rate-collision"
-  else if sortStr a.d.fields != sortStr b.d.fields then "fieldlist-join"
+  else if sortStr a.d.fields != sortStr b.d.fields then fieldsClass a.d.fields b.d.fields
   else if a.d.useCluster != b.d.useCluster then "useclustersize-ignored"
   else "tuning-ignored"
 
